@@ -890,6 +890,15 @@ func (s *Session) Close() error {
 	return s.closeSession()
 }
 
+// outputClosed reports whether the closing stream tag has been written.
+// The output lock must be held: Close and sendError write the tag while
+// holding it, so the answer stays valid until the caller releases the lock.
+func (s *Session) outputClosed() bool {
+	s.stateMutex.RLock()
+	defer s.stateMutex.RUnlock()
+	return s.state&OutputStreamClosed == OutputStreamClosed
+}
+
 func (s *Session) closeSession() error {
 	if s.state&OutputStreamClosed == OutputStreamClosed {
 		return nil
@@ -952,6 +961,9 @@ func (s *Session) Encode(ctx context.Context, v interface{}) error {
 	s.out.Lock()
 	defer s.out.Unlock()
 	verifhook.Yield("xmpp.Encode.locked")
+	if s.outputClosed() {
+		return ErrOutputStreamClosed
+	}
 
 	defer setWriteDeadline(ctx, s.conn)()
 	return marshal.EncodeXML(s.out.e, v)
@@ -965,6 +977,9 @@ func (s *Session) EncodeElement(ctx context.Context, v interface{}, start xml.St
 	s.out.Lock()
 	defer s.out.Unlock()
 	verifhook.Yield("xmpp.EncodeElement.locked")
+	if s.outputClosed() {
+		return ErrOutputStreamClosed
+	}
 
 	defer setWriteDeadline(ctx, s.conn)()
 	return marshal.EncodeXMLElement(s.out.e, v, start)
@@ -989,6 +1004,9 @@ func send(ctx context.Context, s *Session, r xml.TokenReader, start *xml.StartEl
 	s.out.Lock()
 	defer s.out.Unlock()
 	verifhook.Yield("xmpp.send.locked")
+	if s.outputClosed() {
+		return ErrOutputStreamClosed
+	}
 
 	defer setWriteDeadline(ctx, s.conn)()
 
